@@ -1074,12 +1074,22 @@ void output_text(FILE *pfile)
              * until the output phase.
              */
 
-            if (pc->GetColumn() < cpd.column)
-            {
-               reindent_line(pc, cpd.column);
-            }
             // not the first item on a line
-            Chunk *prev = pc->GetPrev();
+            Chunk  *prev = pc->GetPrev();
+            // a chunk that has to be pushed right keeps the space that separates it from its neighbour
+            size_t min_col = cpd.column;
+
+            if (  prev->TestFlags(PCF_FORCE_SPACE)
+               && cpd.last_char != ' '
+               && cpd.last_char != '\t')
+            {
+               min_col++;
+            }
+
+            if (pc->GetColumn() < min_col)
+            {
+               reindent_line(pc, min_col);
+            }
             log_rule_B("align_with_tabs");
             allow_tabs = (  options::align_with_tabs()
                          && pc->TestFlags(PCF_WAS_ALIGNED)
